@@ -202,6 +202,90 @@ def eof_tests(f):
     return out
 
 
+def rule_partial_polarity(ctx):
+    """end-of-data is forgiven exactly while the frame is still being loaded"""
+    from ..facts import op_const_int, op_place
+    from ..intervals import value_class
+    rid = "R-LOADING-POLARITY"
+    ctx.rule(rid, "in the single-section parsers of Frame (the functions that compute `loaded = reading_data_index != 0`), an end-of-data "
+                  "error is forgiven - not recorded in the sticky has_error flag - exactly when the frame is NOT yet fully loaded: the "
+                  "end-of-data question is reached on the `!loaded` edge, or a helper that asks it is handed `!loaded` for the parameter it "
+                  "forgives under. The siblings must agree; an inverted flag at one site poisons a frame that is merely incomplete")
+    fr = ctx.prog.crate("jxl_frame")
+    n = 0
+    for f in fr.fn_list:
+        if f.kind == "Promoted":
+            continue
+        defs = None
+        # L: locals defined as Ne(load of .reading_data_index, 0)
+        Ls = set()
+        for blk in f.blocks:
+            if blk[2]:
+                continue
+            for st in blk[0]:
+                if st[0] == "=" and len(st[1]) == 1 and st[2][0] == "bin" and st[2][1] == "Ne" and op_const_int(st[2][3]) == 0:
+                    l = op_local(st[2][2])
+                    if defs is None:
+                        defs = Defs(f)
+                    d = defs.single(l) if l is not None else None
+                    pl = op_place(d[3][2][1]) if d and d[2] == "assign" and d[3][2][0] == "use" else None
+                    if pl is not None and any(isinstance(e, list) and e[0] == "." and e[2] == "reading_data_index" for e in pl[1:]):
+                        Ls |= value_class(f, st[1][0])
+        if not Ls:
+            continue
+        # negations of L
+        notL = set()
+        for blk in f.blocks:
+            for st in blk[0]:
+                if st[0] == "=" and len(st[1]) == 1 and st[2][0] == "un" and st[2][1] == "Not" and op_local(st[2][2]) in Ls:
+                    notL |= value_class(f, st[1][0])
+        questions = [b for b, t in f.calls() if callee(t) and callee(t)["fn"].endswith("::unexpected_eof")]
+        verdicts = []
+        for q in questions:
+            # which edge of a switch on L leads here?
+            for b in range(len(f.blocks)):
+                t = f.term(b)
+                if t[0] != "switch" or op_local(t[1]) not in Ls or f.is_cleanup(b):
+                    continue
+                zero = [x for v, x in t[2] if v == "0"]
+                if not zero:
+                    continue
+                on_not_loaded = q in f.reachable(zero[0]) or q == zero[0]
+                on_loaded = q in f.reachable(t[3]) or q == t[3]
+                if on_not_loaded and not on_loaded:
+                    verdicts.append(("direct", True))
+                elif on_loaded and not on_not_loaded:
+                    verdicts.append(("direct", False))
+        # helpers that ask the question and are handed L / !L
+        for b, t in f.calls():
+            c = callee(t)
+            g = ctx.prog.fn(c.get("res", c["fn"])) if c else None
+            if g is None or g.crate != f.crate or g is f or len(g.blocks) > 40:
+                continue
+            if not any(callee(tt) and callee(tt)["fn"].endswith("::unexpected_eof") for _, tt in g.calls()):
+                continue
+            for a in t[2]:
+                l = op_local(a)
+                if l in notL:
+                    verdicts.append(("helper:" + g.path.split("::")[-1], True))
+                elif l in Ls:
+                    verdicts.append(("helper:" + g.path.split("::")[-1], False))
+        if not verdicts:
+            continue
+        n += 1
+        ctx.seen(f)
+        wrong = [v for v in verdicts if not v[1]]
+        key = "polarity:%s" % f.path
+        if wrong:
+            ctx.bad(rid, key + "|inverted", "%s forgives an end-of-data error when the frame IS fully loaded (and records it while it is still "
+                    "loading) - via %s: a truncated but valid stream sets the sticky has_error flag and can never be completed"
+                    % (f.path.split("::")[-1], wrong[0][0]), fn=f)
+        else:
+            ctx.ok(rid, key, "end-of-data is forgiven on the !loaded side (%d sites)" % len(verdicts), nontrivial=True, fn=f)
+    ctx.counts[rid + ".functions"] = n
+    ctx.floor(rid + ".functions", 2)
+
+
 def rule_sites(ctx):
     rid = "R-EOF-SITES"
     ctx.rule(rid, "every API-boundary function asks `unexpected_eof()` about the error of its parse step the reviewed number of times and "
@@ -366,6 +450,7 @@ def main(pid, tier, repo=None):
         ctx.use_config(cfg)
         rule_forward(ctx)
         rule_sites(ctx)
+        rule_partial_polarity(ctx)
         rule_drop(ctx)
     ctx.not_decided("that a partial section decodes to a correct partial image; allow_partial value computations; equality of the final result")
     return ctx.finish(
